@@ -118,6 +118,33 @@ CHECKS["C06"] = dict(
                               "Broker, closed form evaluated in 50-digit decimal", note="Constant rate per behaviour; 1e-9 relative "
                               "tolerance; pow() itself is trusted beyond that.")
 
+FULL_NOTE = ("Trusted base: TLC 1.8, the parser and replay harness; bar-shaped streams on a small exact-rational grid; bounded "
+             "numbers of steps; rewards evaluated by the harness from the exact NLV ratio of the model; single thread.")
+CHECKS["C07"] = dict(
+    text="EnvFull.tla composes the event loop with the numeric ledger: TLC explores every sequence of target allocations "
+         "(spot+futures, spread, fees, latency 0/30 with a quote inside the window, delay 0/1, a yearly grid with interest) checking "
+         "OneEntryPerExec, StrictTimes, LedgerReplay (every reported pre/post NLV equals an independent ledger built from deposit, "
+         "prices paid, fees and interest only), RewardDef and Compounding; every maximal behaviour is replayed into a real "
+         "TradingEnv comparing track-record entries (stamp, pre/post NLV, trades, commissions, interest), derived frames, all four "
+         "reward functions and the compounding of simple returns.",
+    design="5 C07", technique="TLA+ spec (EnvFull.tla over LedgerOps/TransmitterOps) model-checked with TLC; every behaviour "
+                              "replayed into the real TradingEnv", note=FULL_NOTE)
+CHECKS["C09"] = dict(
+    text="EnvFull.tla with leveraged / short targets and price paths that take NLV to exactly 0 and below, in the step's bar or "
+         "inside the latency window, with and without recovery: TLC checks BrokeNeverTrades and DoneIsAbsorbing (action "
+         "properties), BrokeEndsEpisode and RuinStepReturnsDone; replays compare outcome class, done flag, absence of any trade or "
+         "track entry for an insolvent decision, refusal after the end, and both valuation modes on a copy of the broker. The "
+         "ruin-step clause is a recorded known finding (known_findings.json).",
+    design="5 C09", technique="TLA+ spec model-checked with TLC; every behaviour replayed into the real TradingEnv", note=FULL_NOTE)
+CHECKS["C11"] = dict(
+    text="Lead resolution: TLC computes, from the calendar specification, the lead contract of every built-in class at every probe "
+         "instant of 1998..2027 (every 7th midnight; every last-trading instant -1 s / exact / +1 s; month offsets 0..2) and checks "
+         "LeadLive; each is compared with FutureChain.lead_contract. Roll: EnvFull.tla with a real ES H19/M19/U19 chain around the "
+         "March 2019 roll, long/short/mixed targets, delay 0/1 (threshold in the thorough tier): invariants OnlyLeadHeld, "
+         "NoHoldAtExpiry, LedgerReplay and LeadForward; behaviours replayed into a real TradingEnv comparing per-contract positions.",
+    design="5 C11", technique="TLA+ specs (CalendarLead.tla, EnvFull.tla) model-checked with TLC; lead table and roll behaviours "
+                              "replayed into the implementation", note=FULL_NOTE)
+
 PENDING = "check not built yet in this round (the TLA+ model for it is planned in DESIGN.md section 5); listed here until its check is registered"
 
 
